@@ -378,7 +378,22 @@ def check_reserved_win(ctx, res: Result):
     metadata was copied (subscript store on the copy, or later position than the `**metadata` unpack)."""
     save = ctx.require("save.save_hypergraph")
     found = 0
-    for n in ast.walk(save.node):
+    # ---- the reserved keys are written whatever the user's metadata holds: a merge that is skipped when the metadata already
+    # has a `weight` / `time` / `layer` entry lets that (stale - every object loaded from a text file has one) entry through
+    for f_ in closure(ctx, save):
+        fv = ctx.view(f_)
+        for n in walk_no_nested(f_.node):
+            is_merge = isinstance(n, ast.Dict) and any(k is None for k in n.keys) and len(n.keys) >= 2 and any(k is None and any(isinstance(x, ast.Name) and "meta" in x.id for x in ast.walk(v_)) for k, v_ in zip(n.keys, n.values))
+            is_store = isinstance(n, ast.Assign) and len(n.targets) == 1 and isinstance(n.targets[0], ast.Subscript) and isinstance(n.targets[0].slice, ast.Constant) and n.targets[0].slice.value in ("weight", "time", "layer")
+            if not (is_merge or is_store):
+                continue
+            for iff in fv.enclosing_all(n, (ast.If, ast.IfExp)):
+                t_i = fv.inline(iff.test, depth=2)
+                probes = [c for c in ast.walk(t_i) if isinstance(c, ast.Compare) and len(c.ops) == 1 and isinstance(c.ops[0], (ast.In, ast.NotIn)) and any(isinstance(x, ast.Name) and "meta" in x.id for x in ast.walk(c.comparators[0]))]
+                if probes:
+                    found += 1
+                    res.violation("S-RESERVED", f_.short, norm(iff.test)[:80], "always", f"the reserved keys are merged into the record only when `{norm(iff.test)[:60]}` - a test on what the user's metadata already contains: a `weight` / `time` / `layer` entry sitting in the metadata (every hypergraph loaded from a text file has them) is written instead of the live value", loc(f_, iff))
+    for n in [x for f_ in closure(ctx, save) for x in walk_no_nested(f_.node)]:
         if isinstance(n, ast.Dict) and any(k is None for k in n.keys):
             pos_unpack = [i for i, k in enumerate(n.keys) if k is None]
             # {**a, **b}: which one is the user's metadata? the one named (or containing) "metadata"
@@ -764,4 +779,10 @@ def check_hgr(ctx, res: Result):
             same = [w for w in grows.get(wl_name, []) if v.parent.get(id(v.stmt_of(w))) is blk]
             res.check(bool(same), "S-HGR", load.short, norm(e), "paired", "a weighted hyperedge is recorded without its weight", loc(load, e))
             sl = [x for x in ast.walk(e) if isinstance(x, ast.Subscript) and isinstance(x.slice, ast.Slice)]
-            res.check(any(isinstance(s.slice.lower, ast.Constant) and s.slice.lower.value == 1 and s.slice.upper is None for s in sl), "S-HGR", load.short, norm(e), "skip-weight", "the weighted hyperedge is not built from the entries after the weight", loc(load, e))
+            after_weight = any(isinstance(s.slice.lower, ast.Constant) and s.slice.lower.value == 1 and s.slice.upper is None for s in sl)
+            # `weight, *members = entries`: the starred name holds the entries after the first
+            starred = {t.value.id for a_ in ast.walk(load.node) if isinstance(a_, ast.Assign) and len(a_.targets) == 1 and isinstance(a_.targets[0], (ast.Tuple, ast.List)) and len(a_.targets[0].elts) == 2 and not isinstance(a_.targets[0].elts[0], ast.Starred) for t in a_.targets[0].elts[1:] if isinstance(t, ast.Starred) and isinstance(t.value, ast.Name)}
+            if not after_weight and any(isinstance(x, ast.Name) and x.id in starred for x in ast.walk(e)):
+                after_weight = True
+            whole = any(isinstance(x, ast.Name) and x.id == "entries" for x in ast.walk(e)) and not sl
+            res.add("S-HGR", load.short, norm(e), "skip-weight", "ok" if after_weight else ("violation" if whole or sl else "unknown"), "" if after_weight else "the weighted hyperedge is not built from the entries after the weight", loc(load, e))
